@@ -1,17 +1,131 @@
 import EpdVerif.Drivers.Dsl
 import EpdVerif.Gen.Epd1in02
-/-! model of `src/epd1in02/mod.rs` (STUB: programs not yet transcribed) -/
+/-! model of `src/epd1in02/mod.rs` -/
 namespace EpdVerif.Drivers.Epd1in02
 open EpdVerif
 open EpdVerif.Gen.Epd1in02
 
-def prog (_f : Feat) (_d : DState) : Op → Option (List Act)
+def W : Act := .wait IS_BUSY_LOW
+
+/-- `crate::buffer_len` -/
+def bufferLen (w h : Nat) : Nat := (w + 7) / 8 * h
+
+/-- `set_lut`: `None` returns at once; nothing is stored -/
+def setLut : Option Refresh → List Act
+  | some .full =>
+    cmdData Command.SetWhiteLut LUT_FULL_UPDATE_WHITE ++
+    cmdData Command.SetBlackLut LUT_FULL_UPDATE_BLACK
+  | some .quick =>
+    cmdData Command.SetWhiteLut LUT_PARTIAL_UPDATE_WHITE ++
+    cmdData Command.SetBlackLut LUT_PARTIAL_UPDATE_BLACK
+  | none => []
+
+def sendResolution : List Act :=
+  [.cmd Command.TconResolution, .data [u8 HEIGHT], .data [u8 WIDTH]]
+
+def init (d : DState) : List Act :=
+  [.reset 20000 2000] ++
+  cmdData Command.PanelSetting [0x6F] ++
+  cmdData Command.PowerSetting [0x03, 0x00, 0x2b, 0x2b] ++
+  cmdData Command.ChargePumpSetting [0x3F] ++
+  cmdData Command.LutOption [0x00, 0x00] ++
+  cmdData Command.PllControl [0x17] ++
+  cmdData Command.VcomAndDataIntervalSetting [if d.bg = 0 then 0x57 else 0x97] ++
+  cmdData Command.TconSetting [0x22] ++
+  sendResolution ++
+  cmdData Command.VcomDcSetting [0x12] ++
+  cmdData Command.PowerSaving [0x33] ++
+  setLut (some d.refresh) ++
+  [W]
+
+def turnOnIfTurnedOff (d : DState) : List Act :=
+  if !d.isOn then [.cmd Command.PowerOn, W, .upd (fun d => { d with isOn := true })] else []
+
+def turnOff : List Act :=
+  [.cmd Command.PowerOff, W, .upd (fun d => { d with isOn := false })]
+
+def setFullMode (d : DState) : List Act :=
+  if d.refresh ≠ .full then
+    [.cmd Command.PartialOut] ++ setLut (some .full) ++
+    [.upd (fun d => { d with refresh := .full })]
+  else []
+
+def setPartialMode (d : DState) : List Act :=
+  if d.refresh ≠ .quick then
+    [.cmd Command.PartialIn] ++ setLut (some .quick) ++
+    [.upd (fun d => { d with refresh := .quick })]
+  else []
+
+def isWindowSizeOk (x y width height : Nat) : Bool :=
+  x + width ≤ WIDTH && y + height ≤ HEIGHT && x % 8 == 0 && width % 8 == 0
+
+def setPartialWindow (x y width height : Nat) : List Act :=
+  assertA (isWindowSizeOk x y width height) ++
+  -- `x + width - 1`, `y + height - 1` in u32
+  assertA (x + width ≥ 1) ++ assertA (y + height ≥ 1) ++
+  cmdData Command.PartialWindow
+    [u8 x, u8 (x + width - 1), u8 y, u8 (y + height - 1), 0x00]
+
+def isBufferSizeOk (b : Bytes) (width height : Nat) : Bool :=
+  bufferLen width height == b.length
+
+def sleep : List Act :=
+  [W] ++ turnOff ++ cmdData Command.DeepSleep [0xA5] ++
+  [.upd (fun d => { d with refresh := .full })]
+
+def updateFrame (d : DState) (b : Bytes) : List Act :=
+  [W] ++ setFullMode d ++
+  [.cmd Command.DataStartTransmission1, .rep (byteValue d.bg) NUMBER_OF_BYTES] ++
+  cmdData Command.DataStartTransmission2 b
+
+def displayFrame (d : DState) : List Act :=
+  [W] ++ turnOnIfTurnedOff d ++ [.cmd Command.DisplayRefresh, W]
+
+def clearFrame (d : DState) : List Act :=
+  let c := byteValue d.bg
+  [W] ++ setFullMode d ++
+  [.cmd Command.DataStartTransmission1, .rep (~~~ c) NUMBER_OF_BYTES,
+   .cmd Command.DataStartTransmission2, .rep c NUMBER_OF_BYTES]
+
+def clearPartialFrame (d : DState) (x y width height : Nat) : List Act :=
+  let c := byteValue d.bg
+  let n := bufferLen width height
+  [W] ++ setFullMode d ++ [.cmd Command.PartialIn] ++
+  setPartialWindow x y width height ++
+  [.cmd Command.DataStartTransmission1, .rep (~~~ c) n,
+   .cmd Command.DataStartTransmission2, .rep c n,
+   .cmd Command.PartialOut]
+
+def prog (_f : Feat) (d : DState) : Op → Option (List Act)
+  | .new => some (init d)
+  | .wake => some (init d)
+  | .sleep => some sleep
+  | .upd b => some (updateFrame d b)
+  | .part _ _ _ _ _ => some [.panic]
+  | .disp => some (displayFrame d)
+  | .updisp b => some (updateFrame d b ++ displayFrame d)
+  | .clear => some (clearFrame d)
+  | .bg c => some [.upd (fun d => { d with bg := c })]
+  | .lut r => some (setLut r)
+  | .wait => some [W]
+  | .old b =>
+    some (setPartialMode d ++ setPartialWindow 0 0 WIDTH HEIGHT ++
+      cmdData Command.DataStartTransmission1 b)
+  | .newf b => some (cmdData Command.DataStartTransmission2 b)
+  | .dispnew => some [.panic]
+  | .updispnew _ => some [.panic]
+  | .pold b x y w h =>
+    some (assertA (isBufferSizeOk b w h) ++ setPartialMode d ++ setPartialWindow x y w h ++
+      cmdData Command.DataStartTransmission1 b)
+  | .pnew b _ _ w h =>
+    some (assertA (isBufferSizeOk b w h) ++ cmdData Command.DataStartTransmission2 b)
+  | .pclear x y w h => some (clearPartialFrame d x y w h)
   | _ => none
 
 def panel (f : Feat) : Panel :=
   { name := "epd1in02", width := WIDTH, height := HEIGHT, single := SINGLE_BYTE_WRITE,
     busyLow := IS_BUSY_LOW, family := .uc, colors := 2,
-    init := { bg := DEFAULT_BACKGROUND_COLOR },
+    init := { bg := DEFAULT_BACKGROUND_COLOR, isOn := false, refresh := .full },
     prog := prog f,
     ctrl := .uc (Uc.por WIDTH HEIGHT 1 5 false) }
 
